@@ -103,3 +103,15 @@ Theorem c10_total_strict_outside_lineage_types : forall e silent t,
   match analyze e silent t with Ok _ => True | Err k => allowed_err k = true end.
 Proof. exact TotalValue.c10_total_strict_outside_lineage_types. Qed.
 Print Assumptions c10_total_strict_outside_lineage_types.
+
+(** * No ValueError either, for query statements without a nested write site: a purely structural invariant (every has_column edge
+    has a single parent equal to its source; the written datasets of a holder chain are pairwise equal) is maintained by the SELECT /
+    WITH extractors - which covers every holder an INSERT / CREATE delegates to.  [nw] (executable): no SELECT .. INTO, no INSERT /
+    UPDATE nested under WITH, no vertica swap function.  Top-level INSERT / CREATE / UPDATE / MERGE stay under the theorem with the
+    EValue disjunct. *)
+From SV Require Import Tree.TotalV2Base Tree.TotalValue2.
+Theorem c10_total_queries_strict : forall e silent t,
+  escape_free t = true -> nw t = true -> mem_string (ty t) QUERY_TYPES = true ->
+  match analyze e silent t with Ok _ => True | Err k => allowed_err k = true end.
+Proof. exact c10_total_queries_partial. Qed.
+Print Assumptions c10_total_queries_strict.
